@@ -73,6 +73,19 @@ pub fn check_lag(lines: &[GLine], lbs: usize, t: &Truth, qs: &[Q], stats: &mut L
         }
         let ju = j as usize;
         if !in_hunk(lines[ju].kind) {
+            // the input so far ends in a line that is neither a hunk line nor a hunk header (commit
+            // header, diff header, ...): no run of changed lines is open, so no hunk line may be held
+            if lines[ju].kind == LineKind::Meta && t.maxvis_prefix[ju] > q.written {
+                let bad = (0..=ju).find(|i| t.vis[*i].map(|v| v > q.written).unwrap_or(false)).unwrap_or(0);
+                return Some(Violation::new(
+                    "L-lag",
+                    "L:hunk-line-held-after-the-hunk-ended",
+                    format!(
+                        "[{}] after {} complete input lines (last: {:?} {:?}) no run of changed lines is open, yet line {} ({:?} {:?}) has not been written (quiescence point {}, {} bytes delivered, {} bytes written)",
+                        schedule_name, ju + 1, lines[ju].kind, lines[ju].text, bad + 1, lines[bad].kind, lines[bad].text, qi, q.delivered, q.written
+                    ),
+                ));
+            }
             continue;
         }
         stats.in_hunk_points += 1;
